@@ -678,4 +678,158 @@ theorem update_ctrl_right (cl : List A → List (List A)) (al : List A → Bool)
   · exact update_ctrl_right_neg cl al m c a sup t h0
   · exact update_ctrl_right_nonneg cl al m c a sup t (by omega)
 
+/-- what the model's key switch makes of Alt+b / Ctrl+Left, with its `let`s spelled out -/
+def altbCursor (al : List A → Bool) (content : List (List A)) (cursor : Int) : Int :=
+  let c0 := if cursor - 1 ≥ (content.length : Int) then (content.length : Int) - 1 else cursor - 1
+  let c1 := TextInput.bwdLoop (fun g => !al g) (content.take (c0 + 1).toNat).reverse c0
+  TextInput.bwdLoop2 al (content.take (c1 + 1).toNat).reverse c1
+
+theorem keySwitch_alt_b (al : List A → Bool) (g : TextInput.TI (List A)) (c a sup : Bool) (t : List (List A)) :
+    TextInput.keySwitch al g "Alt+b" c a sup t = some ({ g with cursor := altbCursor al g.content g.cursor }, false) := by
+  simp [TextInput.keySwitch, altbCursor]
+
+theorem keySwitch_ctrl_left (al : List A → Bool) (g : TextInput.TI (List A)) (c a sup : Bool) (t : List (List A)) :
+    TextInput.keySwitch al g "Ctrl+Left" c a sup t = some ({ g with cursor := altbCursor al g.content g.cursor }, false) := by
+  simp [TextInput.keySwitch, altbCursor]
+
+theorem update_alt_b (cl : List A → List (List A)) (al : List A → Bool) (m : TIC A) (c a sup : Bool) (t : List A) :
+    tiRunUpdate genTi cl al m (.key "Alt+b" c a sup t) = TextInputCl.update cl al m (.key "Alt+b" c a sup t) := by
+  obtain ⟨content, cursor, offset, paste⟩ := m
+  -- the cursor the loops start from
+  generalize hc0 : (if cursor - 1 ≥ (content.length : Int) then (content.length : Int) - 1 else cursor - 1) = c0
+  have hlt : c0 < content.length := by rw [← hc0]; split <;> omega
+  generalize hN1 : steps (fun g => !al g) (content.take (c0 + 1).toNat).reverse = n1
+  have e2 : c0 - (n1 : Int) + 1 = c0 + 1 - n1 := by omega
+  generalize hN2 : steps al (content.take (c0 + 1 - (n1 : Int)).toNat).reverse = n2
+  generalize hD : (if n2 < (content.take (c0 + 1 - (n1 : Int)).toNat).reverse.length then (1 : Int) else 0) = d2
+  have hsw : ∃ e1, execS (tiCx1 genTi cl al) (B.head tiUpdate.body) (env0 ⟨content, cursor, offset, paste⟩ (.key "Alt+b" c a sup t)) =
+      .ok e1 ∧ getV e1 "m.content" = .chars content ∧
+      getV e1 "m.cursor" = .num (c0 - n1 - n2 + d2) ∧
+      getV e1 "m.offset" = .num offset ∧
+      getV e1 "m.paste" = .str paste ∧ getV e1 "deferred" = .err "unbound deferred" := by
+    by_cases hge : (content.length : Int) ≤ cursor - 1
+    · have hcA : (content.length : Int) - 1 = c0 := by rw [← hc0]; simp [hge]
+      sw_simp [cmpI, hge]
+      rw [hcA]
+      rw [bwdLoopSpec content (fun g => !al g) 0
+        (mkKey content offset paste "Alt+b" c a sup t (fun i => [("l3", .num i)])) (c := c0) (i := c0)]
+      · simp only [hN1]
+        simp [getV, setV]
+        rw [bwdLoopSpec content al 1
+          (mkKey content offset paste "Alt+b" c a sup t (fun i => [("l3", .num (c0 - (n1 : Int))), ("l4", .num i)]))
+          (c := c0 - n1) (i := c0 - n1)]
+        · simp only [e2, hN2, hD]
+          simp [getV, setV]
+        · intro cc i; simp [getV]
+        · intro cc i g hi hg
+          by_cases hp : al g <;> simp [getV, setV, hi, hg, hp]
+        · intro cc i; simp [getV, setV]
+        · omega
+        · simp [envSize, vSize]; omega
+      · intro cc i; simp [getV]
+      · intro cc i g hi hg
+        by_cases hp : al g <;> simp [getV, setV, hi, hg, hp]
+      · intro cc i; simp [getV, setV]
+      · omega
+      · simp [envSize, vSize]; omega
+    · have hcB : cursor - 1 = c0 := by rw [← hc0]; simp [hge]
+      sw_simp [cmpI, hge]
+      rw [hcB]
+      rw [bwdLoopSpec content (fun g => !al g) 0
+        (mkKey content offset paste "Alt+b" c a sup t (fun i => [("l3", .num i)])) (c := c0) (i := c0)]
+      · simp only [hN1]
+        simp [getV, setV]
+        rw [bwdLoopSpec content al 1
+          (mkKey content offset paste "Alt+b" c a sup t (fun i => [("l3", .num (c0 - (n1 : Int))), ("l4", .num i)]))
+          (c := c0 - n1) (i := c0 - n1)]
+        · simp only [e2, hN2, hD]
+          simp [getV, setV]
+        · intro cc i; simp [getV]
+        · intro cc i g hi hg
+          by_cases hp : al g <;> simp [getV, setV, hi, hg, hp]
+        · intro cc i; simp [getV, setV]
+        · omega
+        · simp [envSize, vSize]; omega
+      · intro cc i; simp [getV]
+      · intro cc i g hi hg
+        by_cases hp : al g <;> simp [getV, setV, hi, hg, hp]
+      · intro cc i; simp [getV, setV]
+      · omega
+      · simp [envSize, vSize]; omega
+  obtain ⟨e, hsw, h1, h2, h3, h4, h5⟩ := hsw
+  rw [run_ok cl al _ _ e _ _ _ _ _ hsw h1 h2 h3 h4 h5]
+  have hm : altbCursor al content cursor = c0 - n1 - n2 + d2 := by
+    simp only [altbCursor, hc0, bwdLoop_steps, bwdLoop2_steps, hN1, e2, hN2, hD]
+  simp only [TextInputCl.update, TextInputCl.toG, keySwitch_alt_b, hm]
+
+theorem update_ctrl_left (cl : List A → List (List A)) (al : List A → Bool) (m : TIC A) (c a sup : Bool) (t : List A) :
+    tiRunUpdate genTi cl al m (.key "Ctrl+Left" c a sup t) = TextInputCl.update cl al m (.key "Ctrl+Left" c a sup t) := by
+  obtain ⟨content, cursor, offset, paste⟩ := m
+  -- the cursor the loops start from
+  generalize hc0 : (if cursor - 1 ≥ (content.length : Int) then (content.length : Int) - 1 else cursor - 1) = c0
+  have hlt : c0 < content.length := by rw [← hc0]; split <;> omega
+  generalize hN1 : steps (fun g => !al g) (content.take (c0 + 1).toNat).reverse = n1
+  have e2 : c0 - (n1 : Int) + 1 = c0 + 1 - n1 := by omega
+  generalize hN2 : steps al (content.take (c0 + 1 - (n1 : Int)).toNat).reverse = n2
+  generalize hD : (if n2 < (content.take (c0 + 1 - (n1 : Int)).toNat).reverse.length then (1 : Int) else 0) = d2
+  have hsw : ∃ e1, execS (tiCx1 genTi cl al) (B.head tiUpdate.body) (env0 ⟨content, cursor, offset, paste⟩ (.key "Ctrl+Left" c a sup t)) =
+      .ok e1 ∧ getV e1 "m.content" = .chars content ∧
+      getV e1 "m.cursor" = .num (c0 - n1 - n2 + d2) ∧
+      getV e1 "m.offset" = .num offset ∧
+      getV e1 "m.paste" = .str paste ∧ getV e1 "deferred" = .err "unbound deferred" := by
+    by_cases hge : (content.length : Int) ≤ cursor - 1
+    · have hcA : (content.length : Int) - 1 = c0 := by rw [← hc0]; simp [hge]
+      sw_simp [cmpI, hge]
+      rw [hcA]
+      rw [bwdLoopSpec content (fun g => !al g) 0
+        (mkKey content offset paste "Ctrl+Left" c a sup t (fun i => [("l3", .num i)])) (c := c0) (i := c0)]
+      · simp only [hN1]
+        simp [getV, setV]
+        rw [bwdLoopSpec content al 1
+          (mkKey content offset paste "Ctrl+Left" c a sup t (fun i => [("l3", .num (c0 - (n1 : Int))), ("l4", .num i)]))
+          (c := c0 - n1) (i := c0 - n1)]
+        · simp only [e2, hN2, hD]
+          simp [getV, setV]
+        · intro cc i; simp [getV]
+        · intro cc i g hi hg
+          by_cases hp : al g <;> simp [getV, setV, hi, hg, hp]
+        · intro cc i; simp [getV, setV]
+        · omega
+        · simp [envSize, vSize]; omega
+      · intro cc i; simp [getV]
+      · intro cc i g hi hg
+        by_cases hp : al g <;> simp [getV, setV, hi, hg, hp]
+      · intro cc i; simp [getV, setV]
+      · omega
+      · simp [envSize, vSize]; omega
+    · have hcB : cursor - 1 = c0 := by rw [← hc0]; simp [hge]
+      sw_simp [cmpI, hge]
+      rw [hcB]
+      rw [bwdLoopSpec content (fun g => !al g) 0
+        (mkKey content offset paste "Ctrl+Left" c a sup t (fun i => [("l3", .num i)])) (c := c0) (i := c0)]
+      · simp only [hN1]
+        simp [getV, setV]
+        rw [bwdLoopSpec content al 1
+          (mkKey content offset paste "Ctrl+Left" c a sup t (fun i => [("l3", .num (c0 - (n1 : Int))), ("l4", .num i)]))
+          (c := c0 - n1) (i := c0 - n1)]
+        · simp only [e2, hN2, hD]
+          simp [getV, setV]
+        · intro cc i; simp [getV]
+        · intro cc i g hi hg
+          by_cases hp : al g <;> simp [getV, setV, hi, hg, hp]
+        · intro cc i; simp [getV, setV]
+        · omega
+        · simp [envSize, vSize]; omega
+      · intro cc i; simp [getV]
+      · intro cc i g hi hg
+        by_cases hp : al g <;> simp [getV, setV, hi, hg, hp]
+      · intro cc i; simp [getV, setV]
+      · omega
+      · simp [envSize, vSize]; omega
+  obtain ⟨e, hsw, h1, h2, h3, h4, h5⟩ := hsw
+  rw [run_ok cl al _ _ e _ _ _ _ _ hsw h1 h2 h3 h4 h5]
+  have hm : altbCursor al content cursor = c0 - n1 - n2 + d2 := by
+    simp only [altbCursor, hc0, bwdLoop_steps, bwdLoop2_steps, hN1, e2, hN2, hD]
+  simp only [TextInputCl.update, TextInputCl.toG, keySwitch_ctrl_left, hm]
+
 end VaxisModel.Lemmas.EdLangTIBody
